@@ -31,7 +31,7 @@ def chunky(rng):
                    for k in [rng.randint(2, 4)] for i in range(k))
 
 
-CHUNK_TEMPLATES = ["*[{k}]: long\n*[{p}]: short\n\nx {k} y {p} z\n", "*[{p}]: short\n*[{k}]: long\n\nx {k} y\n", "*[{k}]: title\n\nuse {k} and {j} here {k}.\n", "*[{k}]: one\n*[{j}]: two\n\n{j} {k}{j}\n", "text[^{k}] more[^{j}]\n\n[^{k}]: note {j}\n\n[^{j}]: n\n",
+CHUNK_TEMPLATES = ["*[{k}]: one\n*[css]: two\n*[W3C]: three\n\nuse {k} and css with W3C then {k} again\n", "*[Yahoo!]: y\n*[css]: c\n\nYahoo! css {k}\n", "*[Foo.*]: f\n*[zz]: z\n*[{k}]: k\n\nFoo.* zz {k} E=mc2\n", "*[{k}]: long\n*[{p}]: short\n\nx {k} y {p} z\n", "*[{p}]: short\n*[{k}]: long\n\nx {k} y\n", "*[{k}]: title\n\nuse {k} and {j} here {k}.\n", "*[{k}]: one\n*[{j}]: two\n\n{j} {k}{j}\n", "text[^{k}] more[^{j}]\n\n[^{k}]: note {j}\n\n[^{j}]: n\n",
                    "[{k}]: /u\n\n[{k}] and [x][{k}] and [{j}]\n", "plain {k} &{k}; &amp{j}; {j}\n", "*{k}* **{j}** `{k}` [{k}](/{j})\n", "| {k} | {j} |\n|---|---|\n| {j} | {k} |\n",
                    "{k}\n: {j}\n", "# {k} {j}\n\n{k}\n===\n", "- [ ] {k}\n- {j}\n", "<{k}> <a {j}> http://{k}/{j} {k}@{j}.com\n", "~{k}~ ^{j}^ =={k}== ~~{j}~~ ^^{k}^^ >!{j}!< ${k}$ [{k}({j})]\n"]
 
